@@ -30,9 +30,8 @@ def playback(drv, h_name, cfg, cap, wanted_descs):
     tdir = os.path.join(drv.WORK, "t_play_%s_cap%d" % (cfg, cap))
     cmd = ["cargo", "kani", "--target-dir", tdir, "--harness", h_name, "--exact",
            "--no-assertion-reach-checks", "-Z", "concrete-playback", "--concrete-playback=print"]
-    if cfg == "std":
-        cmd += ["--no-default-features", "--features", "stdcfg"]
-    r = drv.sh(cmd, cwd=drv.HARNESS, env=env, timeout=7200)
+    hdir = drv.CFG_DIR[cfg]
+    r = drv.sh(cmd, cwd=hdir, env=env, timeout=7200)
     out = r.stdout
     tests = []
     for m in re.finditer(r"```\n(.*?)```", out, re.S):
@@ -63,10 +62,8 @@ def playback(drv, h_name, cfg, cap, wanted_descs):
     open(PLAYBACK_RS, "w").write(body)
     for t in tests:
         cmd = ["cargo", "kani", "playback", "-Z", "concrete-playback"]
-        if cfg == "std":
-            cmd += ["--no-default-features", "--features", "stdcfg"]
         cmd += ["--", t["test"], "--nocapture"]
-        r = drv.sh(cmd, cwd=drv.HARNESS, env=env, timeout=1800)
+        r = drv.sh(cmd, cwd=hdir, env=env, timeout=1800)
         t["native_output"] = r.stdout[-3000:]
         t["native_failed"] = ("test result: FAILED" in r.stdout) or ("panicked at" in r.stdout)
         t["replay_build_error"] = "could not compile" in r.stdout
@@ -74,8 +71,8 @@ def playback(drv, h_name, cfg, cap, wanted_descs):
         t["native_panic"] = pm.group(1).strip() if pm else None
         t["cmd"] = " ".join(cmd)
     # valgrind pass for memory-safety checks
-    bins = sorted(glob.glob(os.path.join(drv.HARNESS, "target", "*", "debug", "build", "vharness", "*", "out", "vharness-*")) +
-                  glob.glob(os.path.join(drv.HARNESS, "target", "*", "debug", "deps", "vharness-*")),
+    bins = sorted(glob.glob(os.path.join(hdir, "target", "*", "debug", "build", "vharness", "*", "out", "vharness-*")) +
+                  glob.glob(os.path.join(hdir, "target", "*", "debug", "deps", "vharness-*")),
                   key=os.path.getmtime)
     bins = [b for b in bins if os.access(b, os.X_OK) and not b.endswith(".d")]
     for t in tests:
@@ -85,7 +82,7 @@ def playback(drv, h_name, cfg, cap, wanted_descs):
                        env=env, timeout=1800)
             t["valgrind_errors"] = (r.returncode == 97)
             t["valgrind_output"] = r.stdout[-2000:]
-    shutil.rmtree(os.path.join(drv.HARNESS, "target"), ignore_errors=True)
+    shutil.rmtree(os.path.join(hdir, "target"), ignore_errors=True)
     try:
         os.remove(PLAYBACK_RS)
     except OSError:
